@@ -2,13 +2,43 @@ from checks import rapid, plain, fuzz, REPLAY
 
 CHECK = dict(
     pkg="c10", level="exploration",
-    rule="TODO",
+    rule="one evaluation = one generated history (1-14 steps; concurrency job: 1-9 steps, batch-heavy) of put / referrer-aware delete "
+         "(WithManifestCheckReferrers, WithManifest(m), both) / ReferrerList (no filter, artifactType, annotation filters, sort options, "
+         "MatchOpt or the deprecated option functions, by digest or by tag reference) / concurrent batch (2-4 puts and deletes of distinct "
+         "artifacts naming ONE subject through ONE client, start offsets + per-request latency plan + GOMAXPROCS) over a pool of 2-7 "
+         "artifacts (OCI image manifest with artifactType or typed config, OCI artifact manifest, OCI index with/without artifactType; "
+         "4 annotation sets; pushed by digest, by digest as child, by tag) naming 3 subjects (a stored image, a digest that is not stored "
+         "(sha256/sha512), artifact 0 which is itself a referrer), run against system = registry with referrers API (unpaged / page size "
+         "1-2, server-side artifactType filter on/off) | registry without it (client-maintained fallback tag; tag delete supported or not) "
+         "| OCI layout, each registry with reg.WithCache on/off and HEAD with/without digest header. Reference model subject -> "
+         "set{(digest, artifactType, annotations)}; after EVERY step raw storage, the raw fallback tag, a fresh client's answer for all "
+         "3 subjects and (generated) the client under test's answers are compared with it. Non-trivial = at some point >= 2 live "
+         "artifacts named one subject and >= 1 stored artifact was deleted, or a concurrent batch with >= 2 members ran; distinct by the whole case.",
     jobs=[REPLAY,
-          rapid("prop", "TestVerifProp", 8000, 200000, sq=16, st=16, shrinktime="15s"),
-          rapid("conc", "TestVerifConc", 4000, 60000, sq=16, st=16, shrinktime="15s",
+          rapid("prop", "TestVerifProp", 20000, 320000, sq=16, st=16, shrinktime="15s"),
+          rapid("conc", "TestVerifConc", 8000, 48000, sq=16, st=16, shrinktime="15s",
                 race=dict(quick=False, thorough=True))],
-    technique="TODO",
-    level_text="TODO",
-    level_note="TODO",
-    assumptions=[],
+    replay_race=False,
+    technique="model-based property testing (rapid): generated put/delete/list/concurrent-batch histories interpreted against the real "
+              "client and a reference multimap, on an in-process model registry (referrers API on/off, paging, server filtering) and on raw "
+              "OCI layouts; raw storage (model maps, index.json + blob files) read without the client; latency plans and -race for the "
+              "concurrent batches",
+    level_text="Generated-history search. After every step: (a) every artifact the model holds is in raw storage and no other pool artifact "
+               "is, (b) on a registry without the referrers API and on layouts the fallback tag's index lists exactly the model's digests "
+               "(no entry lost, left over or duplicated; tag gone or empty when there are none), (c) ReferrerList through a fresh client "
+               "returns exactly the model's set for all three subjects with each entry's artifactType and annotations, (d) so does the "
+               "client under test (cache included), and list steps with filters / sort options return exactly the model's matches. A "
+               "concurrent batch of commuting operations must end in their unique result. Interleavings are perturbed (latency plan, start "
+               "offsets, GOMAXPROCS, -race in thorough), not enumerated.",
+    level_note="Trusted: regmodel (referrers API incl. paging / filtering and OCI-Subject written from the distribution spec), audit.RawReferrers "
+               "(independent raw scan, cross-checked against the reference model every step), the hand-written manifest serialiser. Not "
+               "asserted: order of the returned descriptors (sort options only must not change the set), descriptor mediaType/size, the "
+               "Subject/Source/Tags fields of the answer, error values of deletes of absent manifests, plain (not referrer-aware) deletes, "
+               "lists running concurrently with updates, garbage left behind (old fallback index blobs), behaviour after Close/GC (C08). "
+               "Behind the known defect concurrent-reg-fallback-with-delete the harness rebuilds the fallback tags from the stored "
+               "manifests and continues with a fresh client (counted as known-defect-repaired:*).",
+    assumptions=["registries are fault free and answer as regmodel does (a registry with the referrers API acknowledges a subject with OCI-Subject)",
+                 "an artifact's type is artifactType, else (image manifest) config.mediaType, else none (index); its annotations are the manifest's top-level annotations (distribution spec, referrers API)",
+                 "filter semantics as documented on descriptor.MatchOpt (all listed annotations must match; an empty value only requires the key)",
+                 "the WithManifest(m) option is given the manifest that is being deleted"],
 )
